@@ -108,3 +108,11 @@ Theorem C06_expectile_rev : forall p lam (w y z1 z2 : list R),
   z2 = rev z1.
 Proof. exact expectile_curve_rev. Qed.
 Print Assumptions C06_expectile_rev.
+
+(** the whole non-robust GCV smoother: the series y + c with placeholder nodata + c gets the same lambda and the curve moved by c
+    (missing cells are zeroed inside the kernel, not shifted - with weight 0 neither the solver nor the score sees them) *)
+Theorem C06_gcv_nonrobust_shift : forall (K : Gcv.gconsts (F := R)) (y : list R) nd c llas z lopt,
+  Gcv.ws2dwcv OpsR K y nd llas false = Gcv.GFit z lopt -> 0 < lopt ->
+  Gcv.ws2dwcv OpsR K (shiftl c y) (nd + c) llas false = Gcv.GFit (shiftl c z) lopt.
+Proof. exact wcv_nonrobust_shift. Qed.
+Print Assumptions C06_gcv_nonrobust_shift.
